@@ -21,7 +21,7 @@ import (
 func init() {
 	ev.Register(&ev.Spec{
 		ID: "C19", Level: "exploration",
-		Rule: "paged listings (next Offset = Offset of the last entry received) of real localfs temp directories, staticfs and composefs (flat, with localfs/staticfs mounts, nested WithDir), called on the File directly (entry counts) and through client+server (byte counts, several msize values); the multiset of names is compared with ground truth and every entry's QID/type with Walk+GetAttr. Non-trivial: the listing needed >= 2 pages; distinct by (fs, dir size, name class, count class, route).",
+		Rule:    "paged listings (next Offset = Offset of the last entry received) of real localfs temp directories, staticfs and composefs (flat, with localfs/staticfs mounts, nested WithDir), called on the File directly (entry counts) and through client+server (byte counts, several msize values); the multiset of names is compared with ground truth and every entry's QID/type with Walk+GetAttr. Non-trivial: the listing needed >= 2 pages; distinct by (fs, dir size, name class, count class, route).",
 		Assume:  []string{"directories are not modified while listed", "real temp directories under /verif/.scratch"},
 		Shards:  shards(8, 16),
 		Timeout: timeout(5*time.Minute, 40*time.Minute),
